@@ -318,7 +318,13 @@ pub fn gen_spec(rng: &mut Rng, family: &str, large: u8) -> InputSpec {
         ("starholes", _) => 1 + rng.below(30),
         ("tiles", _) => 1 + rng.below(6),
         ("blobs", _) => 1 + rng.below(20),
-        ("cloud", _) => 3 + rng.below(120),
+        ("cloud", _) => {
+            if rng.chance(1, 3) {
+                120 + rng.below(400)
+            } else {
+                3 + rng.below(120)
+            }
+        }
         ("segs", _) => 2 + rng.below(14),
         ("mantissa", _) => *rng.pick(&[10usize, 100, 1000, 5000]),
         _ => 4,
